@@ -48,6 +48,7 @@ class VFS:
         self.fail_partial = None   # for a failing write: number of bytes that still get written
         self.fail_errno = errno.ENOSPC
         self.failed = False
+        self.fault_log = []
         self.hook = None           # scheduler yield hook: hook(kind, path)
         self.ntemp = 0
         self.clock = 0
@@ -61,14 +62,21 @@ class VFS:
             self.hook(kind, path)
 
     def _mutate(self, kind, path, *rest):
-        """Called before a mutating op takes effect. May raise an injected fault."""
+        """Called before a mutating op takes effect. May raise an injected fault.
+        Short write: the op at fail_at writes only fail_partial bytes and reports that count (as
+        write(2) does); the NEXT mutating op then fails with the error."""
         i = self.nops
         self.nops += 1
         if self.fail_at is not None and not self.failed:
-            if api.decide(i == self.fail_at):
+            if api.decide(lambda: i == self.fail_at):
+                if kind == 'write' and self.fail_partial is not None:
+                    n = self.fail_partial
+                    self.fail_partial = None
+                    self.fail_at = self.nops
+                    self.fault_log.append((i, kind, path, 'short'))
+                    return ('partial', n)
                 self.failed = True
-                if kind == 'write' and self.fail_partial:
-                    return ('partial', self.fail_partial)
+                self.fault_log.append((i, kind, path, 'error'))
                 raise InjectedFault(self.fail_errno, 'injected fault at op %d (%s %s)' % (i, kind, path))
         return None
 
@@ -176,6 +184,55 @@ class VFS:
         return t
 
 
+def apply_op(files, dirs, e, partial=None):
+    """Apply one logged operation to a plain image (files: path -> bytes, dirs: set)."""
+    k = e[0]
+    if k == 'create':
+        files.setdefault(e[1], b'')
+    elif k == 'write':
+        _, path, pos, b = e
+        if partial is not None:
+            b = b[:partial]
+        d = files.get(path, b'')
+        if pos > len(d):
+            d = d + b'\0' * (pos - len(d))
+        files[path] = d[:pos] + b + d[pos + len(b):]
+    elif k == 'truncate':
+        d = files.get(e[1], b'')
+        files[e[1]] = d[:e[2]] if e[2] <= len(d) else d + b'\0' * (e[2] - len(d))
+    elif k == 'remove':
+        files.pop(e[1], None)
+    elif k == 'rename':
+        a, b = e[1], e[2]
+        if a in files:
+            files[b] = files.pop(a)
+        else:
+            pre = a.rstrip('/') + '/'
+            for q in list(files):
+                if q.startswith(pre):
+                    files[b + '/' + q[len(pre):]] = files.pop(q)
+            for q in list(dirs):
+                if q == a or q.startswith(pre):
+                    dirs.discard(q)
+                    dirs.add(b + q[len(a):])
+    elif k == 'link':
+        files[e[2]] = files[e[1]]
+    elif k == 'mkdir':
+        dirs.add(e[1])
+    elif k == 'rmdir':
+        dirs.discard(e[1])
+    # fsync / mark: no effect on the image
+
+
+def image(log, upto, dirs=('/', '/tmp')):
+    """Plain image after the first `upto` logged operations."""
+    files = {}
+    ds = set(dirs)
+    for e in log[:upto]:
+        apply_op(files, ds, e)
+    return files, ds
+
+
 class VRaw(io.RawIOBase):
     """Raw (OS-level) file object over a VFS node; concrete data only."""
 
@@ -238,19 +295,15 @@ class VRaw(io.RawIOBase):
         if self._append:
             self._pos = len(self.node.data)
         r = self.fs._mutate('write', self.name, self._pos, b)
-        partial = None
         if r is not None:
             partial = api.realize(r[1])
-            partial = max(0, min(partial, len(b)))
-            b = b[:partial]
+            b = b[:max(0, min(partial, len(b)))]
         data = self.node.data
         if self._pos > len(data):
             data = data + b'\0' * (self._pos - len(data))
         self.node.data = data[:self._pos] + b + data[self._pos + len(b):]
         self.fs._log('write', self.name, self._pos, b)
         self._pos += len(b)
-        if partial is not None:
-            raise InjectedFault(self.fs.fail_errno, 'injected short write (%d bytes) on %s' % (partial, self.name))
         return len(b)
 
     def truncate(self, size=None):
@@ -351,9 +404,9 @@ class PyFile:
             end = api.realize(size)
         else:
             n = api.realize(n)
-            if api.decide(pos + n <= size):
+            if api.decide(lambda: pos + n <= size):
                 end = pos + n
-            elif api.decide(pos >= size):
+            elif api.decide(lambda: pos >= size):
                 end = pos
             else:
                 end = api.realize(size)
@@ -386,11 +439,9 @@ class PyFile:
         if self._append:
             self.pos = len(node.data)
         r = self.fs._mutate('write', self.name, self.pos, b)
-        partial = None
         if r is not None:
             partial = api.realize(r[1])
-            partial = max(0, min(partial, len(b)))
-            b = b[:partial]
+            b = b[:max(0, min(partial, len(b)))]
         data = node.data
         pos = self.pos
         if pos > len(data):
@@ -398,8 +449,6 @@ class PyFile:
         node.data = data[:pos] + b + data[pos + len(b):]
         self.fs._log('write', self.name, pos, b)
         self.pos = pos + len(b)
-        if partial is not None:
-            raise InjectedFault(self.fs.fail_errno, 'injected short write')
         return len(b)
 
     def truncate(self, size=None):
@@ -408,7 +457,7 @@ class PyFile:
         self.fs._yield('truncate', self.name)
         node = self.node
         if node.symsize is not None:
-            if api.decide(size <= node.symsize):
+            if api.decide(lambda: size <= node.symsize):
                 size = api.realize(size)
                 node.data = node.data[:size]
                 node.symsize = None
